@@ -158,23 +158,23 @@ def register(claim):
 
 # ---- round 4: what was added to each check (appended to the technique / claim texts above) -------------------------------------------
 R4_TECH = {
-    "C01": "; class-layout variants of one class name through the real factory chain in one process",
-    "C02": "; the deprecated alias pybes3.concatenate with repeated files; package glue translated (Props/EntryTie: the besio wrappers forward their arguments unchanged)",
+    "C01": "; class-layout variants of one class name through the real factory chain in one process; the same collections read under python -O / -OO",
+    "C02": "; the deprecated alias pybes3.concatenate with repeated files; package glue translated (Props/EntryTie: the besio wrappers forward their arguments unchanged); 65 - 300 baskets; basket_array called again for every request on one TBranch object, requests repeated",
     "C03": "; one data block larger than 64 MiB; unknown sub-detector ids whose low byte is a known id; package glue translated (Props/EntryTie)",
     "C04": "; package glue translated (Props/EntryTie: concatenate_raw is raw_io.concatenate itself)",
     "C05": "; scalar / array mixtures per argument and dtype; in-place refill histories; compiled-loop dispatch history in fresh child processes (recorded finding)",
-    "C06": "; pivot arrays given in cylindrical / re-ordered coordinates; depth-3 views",
+    "C06": "; pivot arrays given in cylindrical / re-ordered coordinates; depth-3 views; earlier job configured through an environment variable the package reads, sharing the numba cache directory",
     "C07": "; depth-3 index-selected views; phi0 pairs straddling the 0 / 2 pi wrap in the three-kind closeness comparison",
-    "C08": "; big-endian, Fortran-ordered and transposed array inputs",
-    "C09": "; every accessor group as the first call of a fresh process with an empty numba cache; package glue translated (Props/EntryTie)",
-    "C10": "; the decode relation on the first decoding read of ten fresh processes (1-16 worker threads)",
+    "C08": "; big-endian, Fortran-ordered and transposed array inputs; long hit lists (every element 24x / 44x, shuffled)",
+    "C09": "; every accessor group as the first call of a fresh process with an empty numba cache; package glue translated (Props/EntryTie); one-element record histories (record edited by the caller, same lookup again); integer-typed z arrays; the _make_lazy wrapper checked as a pass-through by the geometry translator",
+    "C10": "; the decode relation on the first decoding read of ten fresh processes (1-16 worker threads); selections naming a detector twice",
     "C11": "; pivot arrays in cylindrical / re-ordered coordinates",
     "C12": "; the same error matrices in transposed / Fortran-ordered / strided / swapped-axes memory layouts",
     "C13": "; caller-buffer histories for every constructor argument; package glue translated (Props/EntryTie)",
-    "C14": "; float arguments of mdc_gid_z_to_x/_y in every container kind; big-endian parser inputs called twice on one array object (input unchanged); package glue translated (Props/EntryTie: every public detector name is the home definition of that name)",
+    "C14": "; float arguments of mdc_gid_z_to_x/_y in every container kind; big-endian parser inputs called twice on one array object (input unchanged); package glue translated (Props/EntryTie: every public detector name is the home definition of that name); two-level missing values; 2-d C- vs Fortran-ordered parser inputs; one-element record histories; byte-order call histories in fresh processes (recorded finding)",
     "C15": "; decoder calls overlapping in time (eight threads, ctypes releases the GIL)",
-    "C17": "; end-to-end run under PYTHONPYCACHEPREFIX",
-    "C18": "; lazy reads of the same collection from two files; compute() in spawned dask worker processes",
+    "C17": "; end-to-end run under PYTHONPYCACHEPREFIX; table files that are symbolic links; first import after the update inside a spawned multiprocessing worker",
+    "C18": "; lazy reads of the same collection from two files; compute() in spawned dask worker processes; every environment variable the package reads, perturbed, set before and after the import",
 }
 
 
